@@ -8,7 +8,8 @@
    The log must be a behaviour of TeamCity, and the observed messages must be the messages the
    specification emits for that call: same kinds in the same order, every required attribute present,
    safe on the wire and decoding (by the specification's Unesc) to the original text.  Additional
-   attributes (duration) are allowed but must be safe as well. *)
+   attributes (duration) are allowed but must be safe as well.  "start" carries the run options given to the
+   reporter (color, verb): whatever they are, the messages must be the same. *)
 EXTENDS TeamCity, Json, IOUtils
 VARIABLE l
 tvars == <<vars, l>>
@@ -31,7 +32,7 @@ ObsOK(o2, f) == E.bad = 0 /\ Matches(NewMsgs(out, o2), E.msgs, tst, f)
 NoF == [file |-> <<>>, line |-> 0]
 
 TInit == Init /\ l = 1
-TNext == \/ Is("start") /\ TestsStarted(E.ri) /\ ObsOK(out', NoF)
+TNext == \/ Is("start") /\ TestsStarted(E.ri, [color |-> E.color, verb |-> E.verb]) /\ ObsOK(out', NoF)
          \/ Is("group") /\ GroupStarted(E.g) /\ ObsOK(out', NoF)
          \/ Is("skip") /\ Skip /\ ObsOK(out', NoF)
          \/ Is("test") /\ TestStarted(E.n, E.file, E.line, E.kind) /\ ObsOK(out', NoF)
@@ -41,7 +42,7 @@ TNext == \/ Is("start") /\ TestsStarted(E.ri) /\ ObsOK(out', NoF)
          \/ Is("endgroup") /\ GroupEnded /\ ObsOK(out', NoF)
          \/ Is("end") /\ TestsEnded /\ ObsOK(out', NoF)
 \* executions are concatenated with reset lines (fresh registry, reporter and result)
-TReset == Is("reset") /\ phase' = "idle" /\ runIgn' = FALSE /\ grp' = NoGroup /\ tst' = NoTest /\ out' = <<>>
+TReset == Is("reset") /\ phase' = "idle" /\ runIgn' = FALSE /\ opt' = NoOpt /\ grp' = NoGroup /\ tst' = NoTest /\ out' = <<>>
           /\ scan' = [stack |-> <<>>, ok |-> TRUE]
           /\ cnt' = [g |-> 0, t |-> 0, f |-> 0, p |-> 0]
 TSpec == TInit /\ [][TNext \/ TReset]_tvars
@@ -51,7 +52,7 @@ Accepted == TLCGet("stats").diameter - 1 = Len(Tr)
 TInv == Balanced /\ ClosedAtEnd /\ OpenMatchesPhase /\ IgnoredFlaggedFrom(Len(out) - 3) /\ RoundTripFrom(Len(out) - 3)
 
 \* diagnostics: the same walk with the observations unbound, printing the messages the specification emits
-PNext == \/ Is("start") /\ TestsStarted(E.ri)
+PNext == \/ Is("start") /\ TestsStarted(E.ri, [color |-> E.color, verb |-> E.verb])
          \/ Is("group") /\ GroupStarted(E.g)
          \/ Is("skip") /\ Skip
          \/ Is("test") /\ TestStarted(E.n, E.file, E.line, E.kind)
